@@ -154,7 +154,25 @@ func c17Profiles(tier string) []Profile {
 	for b := 0; b < 9; b++ {
 		singles = append(singles, 1<<b)
 	}
+	conc := &WorldScenario{Name: "pool-reader-vs-overwrite", Mon: harness.Monitors{RefCount: true}, Keys: [][]byte{kA, kB},
+		Desc: "a neutral recycling item pool beside a writer: reader [GetItem(a) with value, release] || mutator [Set(a) overwrite, Delete(b)] on a flushed and partly evicted collection: the reader's result must be an item of the collection, never a recycled one",
+		Setup: func(w *harness.World) {
+			w.SetCollection("x", "nil")
+			w.SetItem("x", kA, 2, bs("a0"))
+			w.SetItem("x", kB, 1, bs("b0"))
+			w.Flush()
+			w.Evict("x")
+		},
+		Threads: []func(w *harness.World){
+			func(w *harness.World) { w.GetItemRaw("x", kA, true) },
+			func(w *harness.World) { w.SetItem("x", kA, 2, bs("a1")); w.Delete("x", kB) },
+		},
+		Finish: func(w *harness.World) { w.ObserveAll() }}
+	faulted := Profile{Name: "pool-after-faults", Exec: OnlyOracles(c07ExecMon(1, 1, false, harness.Monitors{RefCount: true}), "refcount", "observe", "model"),
+		Budget: map[int]int{1: 0, 2: 0, 3: 1}, ShardLevel: 3,
+		Rule: "the recycling pool across failed calls: 5 initial stores x every single operation x one failing file call at every index (retried or not), then Set, Flush, full read battery, Reopen: results must be those of a store without callbacks (the model)"}
 	return []Profile{
+		conc.Profile(2), faulted,
 		{Name: "subsets", Exec: c17Exec(dAll, all), ShardLevel: 1, Budget: map[int]int{explore.ClassRand: 1}, Rule: fmt.Sprintf("all 512 subsets of {BeforeItemWrite, AfterItemRead, ItemAlloc, ItemAddRef, ItemDecRef, ItemValLength, ItemValWrite (two chunks), ItemValRead (two chunks), KeyCompareForCollection} x every history of length <= %d over Set/Delete/GetItem/MinItem/visit/Evict/SetCollection(y, reverse)/Flush/Reopen/FlushRevert/CopyTo; whenever ItemAlloc, ItemAddRef and ItemDecRef are all installed they implement a recycling pool (an item whose count reaches zero is scrubbed); oracles of C01 (model), C02 (copy re-opens to the durable state), C09 (file monitor), C14 (independent decoder) all on, plus: the observation log equals that of the same history run without callbacks", dAll)},
 		{Name: "singles", Exec: c17Exec(dSingle, singles), ShardLevel: 2, Budget: map[int]int{explore.ClassRand: 1}, Rule: fmt.Sprintf("the empty set, the 9 singletons and the full set x every history of length <= %d, same oracles", dSingle)},
 	}
